@@ -308,6 +308,7 @@ class Simulation(object):
         else:
             raise ValueError("Invalid 'method' for 'simulate_until_max_customers'.")
 
+        previous_time = self.current_time
         while check() < max_customers:
             old_check = check()
             next_active_node = self.event_and_return_nextnode(next_active_node)
